@@ -67,6 +67,9 @@ def _run_tree(ctx):
         ctx.cases += 1
         ctx.current_case = {"kind": "mtree", "tree": tree}
         ctx.diag.clear()
+        # every case starts with empty caches: the simplify diagnostics the F16 predicate relies on
+        # must be produced by this case itself, not by an earlier one that left a cached result
+        MM.clear_caches()
         MM.eval_marker_tree(ctx, tree, on_node, prop=PROP, watchdog=5.0 if ctx.tier == "quick" else 20.0)
     return run_tree
 
